@@ -53,6 +53,9 @@ func newStressWorld(dir string) (*stressWorld, error) {
 		"imp":   "{% import 'lib' as L %}{{ L.mm(x) }}{% from 'lib' import mm as q %}{{ q(x, 2) }}",
 		"loop":  "{% for i in [1, 2, 3] %}{{ loop.index }}{{ x }}{% if loop.last %}.{% endif %}{% endfor %}",
 		"big":   bigTemplate(),
+		// attribute access on Go values of one type from many goroutines: struct by value with pointer- and value-receiver
+		// methods, pointer to struct, typed map, embedded field
+		"meth": "m[{{ u.PLabel }}|{{ u.Name }}|{{ u.VLabel }}|{{ p.PLabel }}|{{ p.Inner.Tag }}|{{ tm.k }}|{{ u.Tag }}]",
 	}}
 	files := map[string]string{
 		"dirA/main.twig":     "A:{% include './part.twig' %}:{{ x }}",
@@ -105,10 +108,23 @@ type sCall struct {
 	GotVer int    `json:"gotver"` // for renders of versioned names: the version printed
 }
 
-var renderNames = []string{"plain", "incl", "child", "imp", "loop", "big", "dirA/main.twig", "dirB/main.twig", "dirB/sub/kid.twig"}
+var renderNames = []string{"plain", "incl", "child", "imp", "loop", "big", "meth", "meth", "dirA/main.twig", "dirB/main.twig", "dirB/sub/kid.twig"}
+
+type stressInner struct{ Tag string }
+type stressUser struct {
+	stressInner
+	Name  string
+	Inner stressInner
+}
+
+func (u *stressUser) PLabel() string { return "<" + u.Name + ">" }
+func (u stressUser) VLabel() string  { return "(" + u.Name + ")" }
 
 func doCall(e *twig.Engine, c *sCall) {
-	ctx := map[string]interface{}{"x": c.X}
+	ctx := map[string]interface{}{"x": c.X,
+		"u":  stressUser{stressInner: stressInner{Tag: "t" + c.X}, Name: c.X, Inner: stressInner{Tag: "i" + c.X}},
+		"p":  &stressUser{Name: "p" + c.X, Inner: stressInner{Tag: "j" + c.X}},
+		"tm": map[string]string{"k": "k" + c.X}}
 	var out string
 	var err error
 	switch c.Op {
